@@ -1260,6 +1260,8 @@ pub const ESC_SHAPES: &[(&[u8], &[u8])] = &[
 ];
 
 fn pp_op(text: &[u8], ro: &str) -> String {
+    // (an empty payload would be a missing field of the line protocol: the empty input is a single blank here)
+    let text: &[u8] = if text.is_empty() { b" " } else { text };
     let mut tab: Vec<String> = Vec::new();
     if let Ok(v) = lexpr::from_slice_custom(text, parse_opts(ro)) {
         float_table(&v, &mut tab);
